@@ -83,6 +83,7 @@ class ByteVector(RawBytesView, FixedByteLengthViewHelper, View):
         return out
 
     def __class_getitem__(cls, length) -> Type["ByteVector"]:
+        length = int(length)  # a uint-typed parameter must not leak its type into the size arithmetic
         chunk_count = (length + 31) // 32
         tree_depth = get_depth(chunk_count)
 
@@ -173,6 +174,7 @@ class ByteList(RawBytesView, FixedByteLengthViewHelper, View):
         return out
 
     def __class_getitem__(cls, limit) -> Type["ByteList"]:
+        limit = int(limit)  # a uint-typed parameter must not leak its type into the size arithmetic
         chunk_count = (limit + 31) // 32
         contents_depth = get_depth(chunk_count)
 
